@@ -271,7 +271,11 @@ func TransCtrlSeq(str string, ansi bool) (dst string, change bool) {
 	dst = fmtPat.ReplaceAllStringFunc(
 		str,
 		func(str string) string {
-			f, ok := fmtCode[str[2]]
+			code := str[2]
+			if 'A' <= code && code <= 'Z' {
+				code += 'a' - 'A' // fmtPat is case-insensitive: §A means §a
+			}
+			f, ok := fmtCode[code]
 			if ok {
 				if ansi {
 					change = true
